@@ -1,5 +1,5 @@
 From Coq Require Import List NArith.
-From FP Require Import Model.Chars Model.Ast Model.Sexp Model.Compile Proofs.RenderFacts.
+From FP Require Import Model.Chars Model.Ast Model.Sexp Model.Compile Proofs.RenderFacts Spec.GuileReader.
 From FP Require Properties.C20.
 Import ListNotations.
 Check C20.C20_first_form : forall c p1 p2, fst (render c p1) = fst (render c p2).
@@ -7,3 +7,5 @@ Check C20.C20_one_place : forall c p, erase (snd (render c p)) = program_ctx c (
 Check C20.C20_hole_injective : forall c x y, program_ctx c x = program_ctx c y -> x = y.
 Check C20.C20_is_scan_device : forall c p,
   option_map (@hd sexp (SList [])) (scan_call (erase (snd (render c p)))) = Some (SStr p).
+Check C20.C20_text : forall e o clk c p, compile e o clk = COk c ->
+  read_all (scheme_text c p) = Some [erase (fst (render c [])); program_ctx c (SStr p)].
